@@ -16,6 +16,7 @@ import (
 	"fmt"
 	"io"
 	"log"
+	"mime"
 	"mime/multipart"
 	"net"
 	"net/http"
@@ -198,8 +199,15 @@ func (f *faultFS) traceString() string {
 
 type partSpec struct {
 	form    string // form name: "file", "commit", "abort", ...
-	fname   string // filename parameter of a file part (may contain directories)
+	fname   string // filename parameter (may contain directories)
 	content string
+	// filename parameter: 0 = the usual (present for "file" parts, absent for fields),
+	// 1 = present whatever the field name, 2 = absent whatever the field name
+	fnMode int
+}
+
+func (p partSpec) hasFilename() bool {
+	return p.fnMode == 1 || (p.fnMode == 0 && p.form == "file")
 }
 
 type reqSpec struct {
@@ -244,8 +252,8 @@ func buildBody(parts []partSpec, preamble string) ([]byte, []region) {
 			b.WriteString("--" + boundary + "\r\n")
 		})
 		mark("phdr", func() {
-			if p.form == "file" {
-				fmt.Fprintf(&b, "Content-Disposition: form-data; name=\"file\"; filename=\"%s\"\r\n", p.fname)
+			if p.hasFilename() {
+				fmt.Fprintf(&b, "Content-Disposition: form-data; name=\"%s\"; filename=\"%s\"\r\n", p.form, p.fname)
 				b.WriteString("Content-Type: application/octet-stream\r\n\r\n")
 			} else {
 				fmt.Fprintf(&b, "Content-Disposition: form-data; name=\"%s\"\r\n\r\n", p.form)
@@ -277,6 +285,7 @@ func regionOf(regs []region, off int) string {
 // event stream as the multipart layer delivers it to processUpload
 type evPart struct {
 	field   string // non-file part: its form name
+	fieldFn string // non-file part: "" or "+" followed by its filename parameter
 	isFile  bool
 	fname   string
 	content []byte
@@ -322,7 +331,11 @@ func deriveEvents(body []byte, transportErr bool) (parts []evPart, endErr bool) 
 		}
 		name := p.FormName()
 		if name != "file" {
-			parts = append(parts, evPart{field: name})
+			ev := evPart{field: name}
+			if _, ok := dispositionFilename(p); ok {
+				ev.fieldFn = "+" + p.FileName()
+			}
+			parts = append(parts, ev)
 			if name != "commit" {
 				return parts, false
 			}
@@ -344,11 +357,25 @@ func deriveEvents(body []byte, transportErr bool) (parts []evPart, endErr bool) 
 	}
 }
 
+// dispositionFilename reports whether the part's Content-Disposition has a filename parameter
+func dispositionFilename(p *multipart.Part) (string, bool) {
+	_, params, err := mime.ParseMediaType(p.Header.Get("Content-Disposition"))
+	if err != nil {
+		return "", false
+	}
+	v, ok := params["filename"]
+	return v, ok
+}
+
 func encodeEvents(parts []evPart, endErr bool, fault *faultSpec, cutFlag int) string {
 	var ps []string
 	for _, p := range parts {
 		if !p.isFile {
-			ps = append(ps, "X:"+hx.HexS(p.field))
+			if p.fieldFn != "" {
+				ps = append(ps, "X:"+hx.HexS(p.field)+":"+hx.HexS(p.fieldFn[1:]))
+			} else {
+				ps = append(ps, "X:"+hx.HexS(p.field))
+			}
 			continue
 		}
 		cut := "0"
@@ -746,6 +773,23 @@ func runScenarioOnce(id int, sc *scenario) bool {
 		} else {
 			evs, endErr = deriveEvents(body, cutFlag == 2)
 		}
+		for _, e := range evs {
+			if !e.isFile && e.field != "commit" {
+				if e.fieldFn != "" {
+					tags["field-with-filename"] = true
+				} else {
+					tags["field-plain"] = true
+				}
+			}
+			if !e.isFile && e.field == "commit" && e.fieldFn != "" {
+				tags["commit-with-filename"] = true
+			}
+		}
+		for _, p := range rq.parts {
+			if p.form == "file" && !p.hasFilename() {
+				tags["file-without-filename"] = true
+			}
+		}
 		reqEnc = append(reqEnc, encodeEvents(evs, endErr, rq.fault, cutFlag))
 
 		before := s.snap()
@@ -956,6 +1000,10 @@ func goodFile(r *hx.Rand, uid string, n int) string {
 
 var badFiles = []string{"", "uid: %s\n", "uid: %s\nPASS\nhello world\n", "Benchmark\n", "uid: %s\nbenchmarkA 1 2 ns/op\n", "BenchmarkNoSpace"}
 
+// field names that are not "file" (a part with any of them must fail the upload, with or without a
+// filename parameter)
+var fieldNames = []string{"abort", "foo", "File", "", "attachment", "files", "file[]", "file2", "FILE", "commit2"}
+
 func fileNames(r *hx.Rand) string {
 	return hx.Pick(r, []string{"a.txt", "", "dir/b.txt", `c:\x\y.txt`, "r.out"})
 }
@@ -963,7 +1011,7 @@ func fileNames(r *hx.Rand) string {
 func goodReq(r *hx.Rand, uid string, nfiles int) reqSpec {
 	rq := reqSpec{cutAt: -1, uid: uid}
 	for i := 0; i < nfiles; i++ {
-		rq.parts = append(rq.parts, partSpec{"file", fileNames(r), goodFile(r, uid, 1+r.Intn(3))})
+		rq.parts = append(rq.parts, partSpec{form: "file", fname: fileNames(r), content: goodFile(r, uid, 1+r.Intn(3))})
 	}
 	switch r.Intn(4) {
 	case 0:
@@ -975,6 +1023,10 @@ func goodReq(r *hx.Rand, uid string, nfiles int) reqSpec {
 			ps = append(ps, partSpec{form: "commit", content: "1"})
 			rq.parts = append(ps, rq.parts[1:]...)
 		}
+	}
+	if r.Chance(1, 8) {
+		// a file part need not name a file
+		rq.parts[0].fnMode, rq.parts[0].fname = 2, ""
 	}
 	if r.Chance(1, 3) {
 		rq.preamble = "this is a preamble"
@@ -1137,8 +1189,14 @@ func main() {
 		case 0: // unknown field at a random position
 			pos := g.r.Intn(len(rq.parts) + 1)
 			ps := append([]partSpec{}, rq.parts[:pos]...)
-			ps = append(ps, partSpec{form: hx.Pick(g.r, []string{"abort", "foo", "File", ""}), content: "1"})
-			rq.parts = append(ps, rq.parts[pos:]...)
+			tail := append([]partSpec{}, rq.parts[pos:]...)
+			bad := partSpec{form: hx.Pick(g.r, fieldNames), content: "1"}
+			if g.r.Bool() {
+				// the field carries a filename parameter and a perfectly good benchmark file
+				bad.fnMode, bad.fname, bad.content = 1, fileNames(g.r), goodFile(g.r, uid, 1+g.r.Intn(2))
+			}
+			rq.parts = append(ps, bad)
+			rq.parts = append(rq.parts, tail...)
 			tag = "badfield"
 		case 1: // one file without benchmark lines
 			j := g.r.Intn(len(rq.parts))
@@ -1172,6 +1230,36 @@ func main() {
 		g.emit(g.wrap(rq, tag))
 	}
 
+	// 3b. every field name x {no filename, filename} x {before, between, after the files}: a part whose
+	// field name is not "file" fails the whole upload, whatever else it carries
+	for _, name := range fieldNames {
+		for fn := 0; fn < 2; fn++ {
+			for pos := 0; pos < 3; pos++ {
+				if !thorough && (len(name)+fn+pos)%3 != 0 {
+					continue
+				}
+				uid := g.uid()
+				rq := reqSpec{cutAt: -1, uid: uid}
+				files := []partSpec{{form: "file", fname: "a.txt", content: goodFile(g.r, uid, 2)}, {form: "file", fname: "b.txt", content: goodFile(g.r, uid, 1)}}
+				bad := partSpec{form: name, content: "1"}
+				if fn == 1 {
+					bad.fnMode, bad.fname, bad.content = 1, hx.Pick(g.r, []string{"b.txt", "x", ""}), goodFile(g.r, uid, 2)
+				}
+				rq.parts = append(rq.parts, files[:pos]...)
+				rq.parts = append(rq.parts, bad)
+				rq.parts = append(rq.parts, files[pos:]...)
+				g.emit(g.wrap(rq, "fieldnames"))
+			}
+		}
+	}
+	// a commit field that carries a filename is still only skipped
+	for i := 0; i < hx.N(2, 10); i++ {
+		uid := g.uid()
+		rq := goodReq(g.r, uid, 1+g.r.Intn(2))
+		rq.parts = append(rq.parts, partSpec{form: "commit", fnMode: 1, fname: "c.txt", content: goodFile(g.r, uid, 1)})
+		g.emit(g.wrap(rq, "commitfile"))
+	}
+
 	// 4. uploads large enough for a flush in the middle (990 pending label arguments), then a fault
 	for i := 0; i < hx.N(4, 30); i++ {
 		uid := g.uid()
@@ -1181,7 +1269,7 @@ func main() {
 		for j := 0; j < 60+g.r.Intn(40); j++ {
 			fmt.Fprintf(&b, "BenchmarkN%d 1 %d ns/op\n", j, j)
 		}
-		rq.parts = []partSpec{{"file", "big.txt", b.String()}, {"file", "small.txt", goodFile(g.r, uid, 2)}}
+		rq.parts = []partSpec{{form: "file", fname: "big.txt", content: b.String()}, {form: "file", fname: "small.txt", content: goodFile(g.r, uid, 2)}}
 		switch i % 4 {
 		case 0:
 			rq.parts = append(rq.parts, partSpec{form: "abort", content: "1"})
